@@ -14,6 +14,9 @@ claimed = {
  'C06': ('invariant of a ghost-instrumented state machine by induction over histories (Coq) + exhaustive short histories and random long ones against the implementation', '6 C06', ''),
  'C07': ('sentence-shape theorems (Coq) + differential correspondence on sentence fields', '6 C07', ''),
  'C08': ('accepted <-> WellFormed, both directions (Coq) + mutation / near-miss correspondence', '6 C08', ''),
+ 'C01': ('no-Panic theorems over an executable model in which every panicking Rust operation is an explicit Panic result (Coq) + catch_unwind/watchdog runs of debug and release builds of the three feature sets', '6 C01', 'partial for the runtime: memory safety and termination of the implementation itself are sampled, not proved'),
+ 'C03': ('equality of the buffer algorithm with the 6-bit unpacking specification for all strings and fills (Coq: induction four characters at a time + finite sweeps) + exhaustive byte/phase/fill correspondence', '6 C03', ''),
+ 'C19': ('theorems pinning the as-is value, refuting the property on a witness and proving it for the repaired model (Coq) + three-way correspondence (impl / as-is model / repaired model); known finding', '6 C19', 'the unchanged tree violates the property: recorded as a known finding'),
  'C17': ('state-transparency theorems lifted to histories (Coq) + metamorphic insert/remove runs and two-parser interleavings', '6 C17', 'independence of parser instances is validated, not proved'),
 }
 pending = {}
